@@ -74,6 +74,12 @@ def run(ctx):
     for b, js, name_op in sites:
         ok, how = registered(F, b, name_op, depth=3)
         key = fnkey(b) + "#member-emission"
+        # the constructor of the per-dimension-set record (a private type: its name and module are not part of the key): the function
+        # that returns a struct of this crate holding the record's two text buffers
+        rty_ = F.adts.get((b.locals[0].get("head") or {}).get("adt") or "") if b.locals else None
+        if rty_ and rty_["crate"] == CR and not (b.impl or {}).get("trait") and \
+                sum(1 for v_ in rty_["variants"] for f_ in v_["fields"] if "PrefixedStringBuf" in f_["ty"]) >= 2:
+            key = CR + "::emf::<per-dimension-set record>::constructor#member-emission"
         ctx.check(ok, "R08.2", key, loc(b, js.bb),
                   "a top-level JSON member is emitted under a name that is never registered in the uniqueness map (%s): a second value "
                   "under the same name is accepted even with all validations on" % how, how)
@@ -498,6 +504,21 @@ def registered(F, b, name_op, depth):
                 ok, how = registered_fields(F, sb, {r[1] for r in roots})
                 if ok:
                     return True, how
+    # ... or a free helper that is handed the registry and the name as separate arguments (`validate_string(&mut self.map, .., &self.name)`)
+    for c in b.calls():
+        for sb in local_callee_bodies(F, c):
+            if sb.crate != CR:
+                continue
+            spr = Prov(sb, adapter_pred=lambda t: (t.get("callee") or {}).get("name") in ("deref", "as_ref", "borrow", "as_str"))
+            for x in sb.calls():
+                if x.name == "entry_ref" and len(x.args) >= 2:
+                    pm = [y[1] for y in spr.operand(x.args[0]) if y[0] == "arg" and not y[2]]
+                    pk = [y[1] for y in spr.operand(x.args[1]) if y[0] == "arg" and not y[2]]
+                    if pm and pk and pm[0] - 1 < len(c.args) and pk[0] - 1 < len(c.args) and sb.must_pass([x.bb]):
+                        mo = pr.operand(c.args[pm[0] - 1])
+                        kr = {(y[1], y[2]) for y in pr.operand(c.args[pk[0] - 1]) if y[0] == "arg"}
+                        if any(y[0] == "arg" and set(y[2]) & registry_fields(F) for y in mo) and roots & kr:
+                            return True, "registered by %s (handed the registry and the name) called from %s" % (sb.name, b.path)
     # bare parameter: look at the callers
     bare = [r for r in roots if not r[1]]
     if bare and depth > 0:
